@@ -240,6 +240,62 @@ def collect_target(term):
     return None
 
 
+def _places(j):
+    """all place dicts ({"l":..,"proj":[..]}) inside a statement / terminator"""
+    if isinstance(j, dict):
+        if "l" in j and "proj" in j:
+            yield j
+        for v in j.values():
+            yield from _places(v)
+    elif isinstance(j, list):
+        for v in j:
+            yield from _places(v)
+
+
+def only_emptiness_test(body, l, depth=0):
+    """True if the Option held in local `l` is only asked whether it is Some/None (is_some / is_none / discriminant), never opened: the answer
+    ("is the iterator empty?") does not depend on the iteration order."""
+    if depth > 4:
+        return False
+    used = False
+    for bi, blk in body.iter_blocks(cleanup=True):
+        for st in blk["stmts"]:
+            if st["k"] != "assign":
+                if any(p["l"] == l for p in _places(st)) and st["k"] not in ("storage_live", "storage_dead", "nop"):
+                    return False
+                continue
+            rv = st["rv"]
+            hits = [p for p in _places(rv) if p["l"] == l]
+            if not hits:
+                continue
+            used = True
+            if any(p["proj"] for p in hits):
+                return False
+            if rv["k"] == "discr":
+                continue
+            if rv["k"] in ("ref", "use") and not st["place"]["proj"]:
+                if not only_emptiness_test(body, st["place"]["l"], depth + 1):
+                    return False
+                continue
+            return False
+        t = blk.get("term")
+        if not t:
+            continue
+        if t["k"] == "call":
+            hits = [p for a in t["args"] for p in _places(a) if p["l"] == l]
+            if hits:
+                used = True
+                if last_seg(norm(t["callee"].get("decl") or "")) not in ("is_some", "is_none"):
+                    return False
+            if t["dest"]["l"] == l and t["dest"]["proj"]:
+                return False
+        elif t["k"] == "drop":
+            continue
+        elif any(p["l"] == l for p in _places({k: v for k, v in t.items() if k not in ("targets",)})):
+            return False
+    return used
+
+
 def scan(body):
     """Classify every call of `body` that touches a hash-iterator typed value."""
     sites = []
@@ -269,7 +325,9 @@ def scan(body):
             continue
         if seg in ("next", "next_back"):
             probs = check_loop(body, bi, t)
-            if probs is None:
+            if probs is None and not t["dest"]["proj"] and only_emptiness_test(body, t["dest"]["l"]):
+                sites.append(Site(body, bi, t, "terminal_ok", "next() used only as an emptiness test"))
+            elif probs is None:
                 sites.append(Site(body, bi, t, "next-outside-loop", "the first element of a hash-ordered iterator is taken"))
             elif probs:
                 sites.append(Site(body, bi, t, "loop-order-sensitive", probs))
